@@ -394,6 +394,47 @@ def run (s : Seq) : List Op → Seq
   | [] => s
   | op :: ops => run (step s op).1 ops
 
+/-! ## several sequences alive at once
+
+A second sequence arises from a first one by `ContentSequence(seq, …)` or by assigning `seq` to the
+`ContentSequence` attribute of an item (which wraps it in a new `ContentSequence` with default flags).  The
+constructor indexes the items afresh, so in this (functional) model the pool members are independent values;
+`Model/SRSeqHeap.lean` re-does the index with explicit locations for the per-name lists, where sharing could be
+expressed, and proves that the regenerated programs never share. -/
+
+inductive PoolOp
+  | on (i : Nat) (op : Op)     -- an operation on pool member `i mod size`
+  | clone (i : Nat)            -- `ContentSequence(pool[i], is_root=…, is_sr=…)` with the member's own flags
+  | attach (i : Nat)           -- `item.ContentSequence = pool[i]` → a non-root SR sequence
+  deriving Repr
+
+/-- the pool holds at most three sequences; a fourth replaces the last -/
+def poolPut (pool : List Seq) (q : Seq) : List Seq :=
+  if pool.length < 3 then pool ++ [q] else pool.set 2 q
+
+def poolStep (pool : List Seq) : PoolOp → List Seq × Option ErrKind
+  | .on i op =>
+    match pool[i % pool.length]? with
+    | none => (pool, some .index)
+    | some s => match step s op with
+      | (s', e) => (pool.set (i % pool.length) s', e)
+  | .clone i =>
+    match pool[i % pool.length]? with
+    | none => (pool, some .index)
+    | some s => match construct s.items s.isRoot s.isSr with
+      | .ok q => (poolPut pool q, none)
+      | .error e => (pool, some e)
+  | .attach i =>
+    match pool[i % pool.length]? with
+    | none => (pool, some .index)
+    | some s => match construct s.items false true with
+      | .ok q => (poolPut pool q, none)
+      | .error e => (pool, some e)
+
+def poolRun (pool : List Seq) : List PoolOp → List Seq
+  | [] => pool
+  | op :: ops => poolRun (poolStep pool op).1 ops
+
 /-! ## the interpreter of the regenerated method programs (`Generated/T14p.lean`, language `Model/SRSeqIR.lean`)
 
 `Props/C14.lean` proves that the operations above ARE `run… Gen.csProg_…`: the index maintenance and the queries
